@@ -58,7 +58,8 @@ CLAIM = dict(
          'asymmetric about 0 and of length != 2 with boundary and outside points, in binary64 and exactly over Qc, with '
          'an independent numpy.polynomial.chebyshev objective in the search; '
          'binary64 (PrimFloat) evaluation of the same Gallina terms for 1..3 sweeps over all option paths (e, '
-         'e_vld, cb, nswp=0, allow_skip_cores, permuted samples, restart) within 1e-9 relative, status / nswp / stop '
+         'e_vld, cb, nswp=0, allow_skip_cores, permuted samples, restart) within max(1e-7, 300 x the measured sensitivity of the cores to a 1.1e-13 relative perturbation of y) '
+         '(1e-9 against the exact Qc values), status / nswp / stop '
          'exact; rank-adaptive runs with the recorded outputs of orthogonalize / matrix_skeleton replayed. '
          'Cross-cutting families (correspondence with the model on the canonical input, and search): ARGUMENT FORMS '
          '(I_trn list / tuple / int32 / int64 / uint8 / F-ordered / non-contiguous; y list / float32 / float16 / int; w float32 / '
@@ -96,6 +97,9 @@ ASSUMPTIONS = ['lamb is not None and lamb > 0, weights >= 0 (w=None is the weigh
 TIME_LIMIT = {'quick': 900, 'thorough': 5400}
 
 TOL = 1e-9
+# binary64 streams: Gauss-Jordan (model) against gelsy (implementation) over several sweeps; rounding differences are amplified
+# by the conditioning of the normal equations (observed up to 3e-9 on d = 4, three sweeps), mutants move cores by >= 1e-3
+TOLF = 1e-7
 
 # ---------------------------------------------------------------------------------------------- Coq headers
 HQ = r'''From Coq Require Import List ZArith QArith Qcanon.
@@ -313,8 +317,39 @@ def gen_case(rng, family=None, d=None, thorough=False):
 
 
 # ---------------------------------------------------------------------------------------------- implementation runs
+def _pert(y):
+    """y * (1 + 2^-43 * (+-1)): a relative perturbation of 1.1e-13 of the training values"""
+    y = np.array([float(v) for v in y])
+    return y * (1.0 + 2.0 ** -43 * np.where(np.arange(len(y)) % 2 == 0, 1.0, -1.0))
+
+
+def with_floor(fn):
+    """adds res['floor']: how far the returned cores move (metric of cores_close) when y is perturbed by a relative 1.1e-13.
+    Comparisons between two float evaluations of the same exact quantity (Gauss-Jordan vs gelsy, permuted summation order)
+    use max(tolerance, 300 * floor): rounding differences are 1e-16 * condition, the floor is 1e-13 * condition, so the margin
+    is 3e5 rounding units, while a semantic change moves cores by a multiple of their size."""
+    def wrapped(*a, floor=True, **k):
+        res = fn(*a, **k)
+        if floor and res.get('status') == 0 and not k.get('record'):
+            res2 = fn(*a, _p=True, **k)
+            res['floor'] = 0.0
+            if res2.get('status') == 0 and len(res2['cores']) == len(res['cores']) and \
+                    all(x.shape == z.shape for x, z in zip(res2['cores'], res['cores'])):
+                res['floor'] = max([float(np.abs(x - z).max()) / max(1.0, float(np.abs(z).max())) if z.size else 0.0
+                                    for x, z in zip(res2['cores'], res['cores'])] + [0.0])
+                if not np.isfinite(res['floor']):
+                    res['floor'] = 0.0
+        return res
+    return wrapped
+
+
+def ftol(tol, *runs):
+    return max([tol] + [300.0 * float(r_.get('floor', 0.0)) for r_ in runs if isinstance(r_, dict)])
+
+
+@with_floor
 def run_als(tn, c, nswp=None, Y0=None, I=None, y=None, w='case', e=None, e_vld=None, vld=None, cb=None, skip=None,
-            record=False, r=None, **kw):
+            record=False, r=None, _p=False, **kw):
     """returns dict(status, nswp, stop, cores, accs, accvs)"""
     I = c['I'] if I is None else I
     y = c['y'] if y is None else y
@@ -337,7 +372,7 @@ def run_als(tn, c, nswp=None, Y0=None, I=None, y=None, w='case', e=None, e_vld=N
     try:
         with warnings.catch_warnings():
             warnings.simplefilter('ignore')
-            Y = tn.als(np.array(I, dtype=int), np.array([float(v) for v in y]), [np.array(G, dtype=float) for G in Y0],
+            Y = tn.als(np.array(I, dtype=int), _pert(y) if _p else np.array([float(v) for v in y]), [np.array(G, dtype=float) for G in Y0],
                        nswp=c['nswp'] if nswp is None else nswp, e=e, info=info,
                        I_vld=None if vld is None else np.array(vld[0], dtype=int),
                        y_vld=None if vld is None else np.array(vld[1], dtype=float), e_vld=e_vld,
@@ -351,7 +386,7 @@ def run_als(tn, c, nswp=None, Y0=None, I=None, y=None, w='case', e=None, e_vld=N
         tn.accuracy, tn.accuracy_on_data = o_acc, o_accv
 
 
-def compare_run(model, impl):
+def compare_run(model, impl, tol=TOL):
     """model / impl dicts -> None or reason"""
     if model['status'] != impl['status']:
         return f"status model={model['status']} impl={impl['status']} {impl.get('error', '')}"
@@ -359,18 +394,18 @@ def compare_run(model, impl):
         return None
     if model['nswp'] != impl['nswp'] or model['stop'] != impl['stop']:
         return f"info model=({model['nswp']},{model['stop']}) impl=({impl['nswp']},{impl['stop']})"
-    ok, why = cores_close(impl['cores'], model['cores'])
-    return None if ok else f'cores differ: {why}'
+    ok, why = cores_close(impl['cores'], model['cores'], ftol(tol, impl))
+    return None if ok else f'cores differ: {why} (sensitivity floor {impl.get("floor")})'
 
 
-def tolerant_corr(R, name, header, items, conv, chunk, distribution, comparison):
+def tolerant_corr(R, name, header, items, conv, chunk, distribution, comparison, tol=None):
     """items: dict(coq, impl (dict), input). Model values are parsed with parse_res(conv)."""
     vals = C.run_cases(f'{R.pid}_{name}', header, [it['coq'] for it in items], chunk=chunk)
     bad = []
     for it, v in zip(items, vals):
         model = parse_res(v, conv)
         R.add_distinct((name, it['input']))
-        why = compare_run(model, it['impl'])
+        why = compare_run(model, it['impl'], tol if tol is not None else (TOLF if header is HF else TOL))
         it['model'] = model
         if why:
             bad.append(dict(stream=name, input=it['input'], why=why))
@@ -595,7 +630,7 @@ def stream_als_f(R, ctx, tn):
         Ip, yp = [c['I'][j] for j in perm], [c['y'][j] for j in perm]
         add(c, run_als(tn, c, I=Ip, y=yp), als_f_term(c, None, c['nswp'], I=Ip, y=yp), 'all-perms', perm=list(perm))
     return tolerant_corr(R, 'als_binary64', HF, items, cores_of_f, 6, dist,
-                         'same Gallina term at PrimFloat (Gauss-Jordan instead of gelsy): cores within 1e-9 relative; '
+                         'same Gallina term at PrimFloat (Gauss-Jordan instead of gelsy): cores within 1e-7 relative; '
                          'status / nswp / stop reason exact; accuracy values are replayed oracles')
 
 
@@ -618,11 +653,12 @@ def gen_func_case(rng, d=None):
     return dict(shape=shape, A0=[G.tolist() for G in A0], H=H, y=y, lamb=rng.choice(LAMBS), nswp=rng.choice([1, 2, 3]))
 
 
-def run_als_func(tn, c, nswp=None, A0=None, order=None):
+@with_floor
+def run_als_func(tn, c, nswp=None, A0=None, order=None, _p=False):
     m = len(c['y'])
     order = list(range(m)) if order is None else order
     H = [np.array(Hk, dtype=float)[order] for Hk in c['H']]
-    y = np.array(c['y'], dtype=float)[order]
+    y = (_pert(c['y']) if _p else np.array(c['y'], dtype=float))[order]
     X = np.tile(np.arange(m, dtype=float)[:, None], (1, len(H)))
     fh = [(lambda x, Hk=Hk: Hk[np.asarray(np.rint(x), dtype=int)].T) for Hk in H]
     info = {}
@@ -659,7 +695,7 @@ def stream_als_func(R, ctx, tn):
         itemsq.append(dict(coq=coq, impl=impl, input=dict(c, lamb=str(c['lamb']))))
         dist['cases_q'] += 1
     bad = tolerant_corr(R, 'als_func_binary64', HF, itemsf, cores_of_f, 4, dist,
-                        'model at PrimFloat; cores within 1e-9 relative; nswp / stop exact (basis given as integer tables via fh)')
+                        'model at PrimFloat; cores within 1e-7 relative; nswp / stop exact (basis given as integer tables via fh)')
     bad += tolerant_corr(R, 'als_func_Qc', HQ, itemsq, cores_of_q, 1, dist,
                          'model exact over Qc, d=2 rank 1 one sweep; implementation within 1e-9 relative')
     return bad
@@ -681,7 +717,8 @@ def gen_cheb_case(rng, d=None, box=None, n=None, rmax=2):
     return dict(d=d, n=n, a=a, b=b, X=X, y=y, A0=[G.tolist() for G in A0], lamb=rng.choice(LAMBS), nswp=rng.choice([1, 2, 3]))
 
 
-def run_als_func_cheb(tn, c, nswp=None, order=None, A0=None):
+@with_floor
+def run_als_func_cheb(tn, c, nswp=None, order=None, A0=None, _p=False):
     """the DEFAULT path of als_func: X, a, b given, fh=None"""
     m = len(c['y'])
     order = list(range(m)) if order is None else order
@@ -689,7 +726,7 @@ def run_als_func_cheb(tn, c, nswp=None, order=None, A0=None):
     try:
         with warnings.catch_warnings():
             warnings.simplefilter('ignore')
-            Y = tn.als_func(np.array(c['X'], dtype=float)[order], np.array(c['y'], dtype=float)[order],
+            Y = tn.als_func(np.array(c['X'], dtype=float)[order], (_pert(c['y']) if _p else np.array(c['y'], dtype=float))[order],
                             [np.array(G, dtype=float) for G in (c['A0'] if A0 is None else A0)], c['a'], c['b'],
                             nswp=c['nswp'] if nswp is None else nswp, e=None, info=info, lamb=float(c['lamb']))
         return dict(status=0, nswp=int(info['nswp']), stop=STOP.get(info['stop'], -1), cores=[np.array(G) for G in Y])
@@ -727,7 +764,7 @@ def stream_als_func_cheb(R, ctx, tn):
         itemsq.append(dict(coq=coq, impl=impl, input=jcheb(c)))
         dist['cases_q'] += 1
     bad = tolerant_corr(R, 'als_func_cheb_binary64', HF, itemsf, cores_of_f, 4, dist,
-                        'model = scale_cheb (C18 model) + func_basis1 (C12 model) + als_func at PrimFloat; cores within 1e-9 '
+                        'model = scale_cheb (C18 model) + func_basis1 (C12 model) + als_func at PrimFloat; cores within 1e-7 '
                         'relative; nswp / stop exact; boxes asymmetric / length != 2, points on the boundary and outside')
     bad += tolerant_corr(R, 'als_func_cheb_Qc', HQ, itemsq, cores_of_q, 1, dist,
                          'the same entry path exact over Qc (d=2, n=2, rank 1, one sweep); implementation within 1e-9 relative')
@@ -788,7 +825,7 @@ def oracle_func_cheb(tn, c, rng_seed=0):
     m = len(c['y'])
     order = list(reversed(range(m)))
     rp = run_als_func_cheb(tn, c, nswp=3, order=order)
-    ok, why = cores_close(rp.get('cores', []), runs[-1]['cores'], TOL)
+    ok, why = cores_close(rp.get('cores', []), runs[-1]['cores'], ftol(TOLF, rp, runs[-1]))
     if not ok:
         return dict(what='als_func (default Chebyshev path): result depends on the order of the training samples', got=why)
     ra = run_als_func_cheb(tn, c, nswp=2, A0=[G.tolist() for G in runs[0]['cores']])
@@ -798,7 +835,7 @@ def oracle_func_cheb(tn, c, rng_seed=0):
     # the default path equals the explicit-basis path fed with the reference basis
     cc = dict(A0=c['A0'], H=[h.tolist() for h in H], y=c['y'], lamb=c['lamb'], nswp=3)
     rb = run_als_func(tn, cc)
-    ok, why = cores_close(rb.get('cores', []), runs[-1]['cores'], 1e-9)
+    ok, why = cores_close(rb.get('cores', []), runs[-1]['cores'], ftol(1e-9, rb, runs[-1]))
     if not ok:
         return dict(what='als_func: default Chebyshev path differs from fh = reference Chebyshev basis of the scaled points', got=why)
     return None
@@ -856,7 +893,7 @@ def stream_adaptive(R, ctx, tn):
         dist['r'][r] = dist['r'].get(r, 0) + 1
     return tolerant_corr(R, 'als_adaptive_binary64', HF, items, cores_of_f, 2, dist,
                          'model at PrimFloat with the recorded outputs of orthogonalize / matrix_skeleton replayed by call '
-                         'number: cores within 1e-9 relative (hence ranks equal)')
+                         'number: cores within 1e-7 relative (hence ranks equal)')
 
 
 def correspondence(R, ctx):
@@ -940,7 +977,7 @@ def oracle_als(tn, c, rng_seed=0):
 
     def cb(Y, info, opts):
         seen.append((info['nswp'], [np.array(G) for G in Y]))
-    run_als(tn, c, nswp=3, cb=cb)
+    run_als(tn, c, nswp=3, cb=cb, floor=False)
     if [s[0] for s in seen] != [1, 2, 3]:
         return dict(what='callback is not called once after every sweep', got=[s[0] for s in seen])
     for t, Y in seen:
@@ -995,7 +1032,7 @@ def oracle_als(tn, c, rng_seed=0):
         Ip, yp = [c['I'][j] for j in perm], [c['y'][j] for j in perm]
         wp = None if c['w'] is None else [c['w'][j] for j in perm]
         rp = run_als(tn, c, nswp=3, I=Ip, y=yp, w=wp)
-        ok, why = cores_close(rp.get('cores', []), res['cores'], TOL)
+        ok, why = cores_close(rp.get('cores', []), res['cores'], ftol(TOLF, rp, res))
         if not ok:
             return dict(what='result depends on the order of the training samples', got=why, perm=perm)
     # every form of a true answer stops right after that sweep with stop = cb; every form of a false answer never stops
@@ -1029,7 +1066,7 @@ def oracle_stop(tn, c, rng):
     Iv = [[rng.randrange(n) for n in c['shape']] for _ in range(4)]
     yv = [rng.randint(-3, 3) or 1 for _ in range(4)]
     seen = []
-    rec = run_als(tn, c, nswp=3, vld=(Iv, yv), cb=lambda Y, info, opts: seen.append((info['nswp'], float(info['e']), float(info['e_vld']))))
+    rec = run_als(tn, c, nswp=3, vld=(Iv, yv), cb=lambda Y, info, opts: seen.append((info['nswp'], float(info['e']), float(info['e_vld']))), floor=False)
     if rec['status'] != 0 or len(seen) != 3:
         return None
     ev = [s_[2] for s_ in seen]
@@ -1105,7 +1142,11 @@ def als_forms(c):
     return F
 
 
-def call_als(tn, kw):
+@with_floor
+def call_als(tn, kw, _p=False):
+    kw = dict(kw)
+    if _p:
+        kw['y_trn'] = _pert(np.asarray(kw['y_trn'], dtype=float).tolist())
     info = kw.pop('info', None)
     info = {} if info is None else info
     try:
@@ -1342,7 +1383,7 @@ def oracle_degenerate(tn, c):
     perm = list(reversed(range(m)))
     cp = dict(c, I=[c['I'][j] for j in perm], y=[c['y'][j] for j in perm], w=None if c['w'] is None else [c['w'][j] for j in perm])
     rp = call_als(tn, canon_kw(cp, nswp=3))
-    ok, why = cores_close(rp.get('cores', []), runs[3]['cores'], TOL)
+    ok, why = cores_close(rp.get('cores', []), runs[3]['cores'], ftol(TOLF, rp, runs[3]))
     if not ok:
         return dict(what=f'result depends on the order of the training samples ({c["family"]})', got=why)
     return None
@@ -1357,7 +1398,7 @@ def oracle_wlamb_scale(tn, c):
     for k in (300, -300, 1000 - 60, -1000):
         sc = 2.0 ** k
         res = call_als(tn, canon_kw(c, w=np.array(w) * sc, lamb=float(c['lamb']) * sc))
-        ok, why = cores_close(res.get('cores', []), ref['cores'], TOL)
+        ok, why = cores_close(res.get('cores', []), ref['cores'], ftol(TOLF, res, ref))
         if not ok:
             return dict(what=f'als: scaling the weights and lamb by 2^{k} changes the result', got=why, k=k, error=res.get('error'))
     return None
@@ -1426,7 +1467,7 @@ def oracle_func(tn, c, rng_seed=0):
     m = len(c['y'])
     order = list(reversed(range(m)))
     rp = run_als_func(tn, c, nswp=3, order=order)
-    ok, why = cores_close(rp.get('cores', []), res['cores'], TOL)
+    ok, why = cores_close(rp.get('cores', []), res['cores'], ftol(TOLF, rp, res))
     if not ok:
         return dict(what='als_func: result depends on the order of the training samples', got=why)
     return None
@@ -1452,7 +1493,7 @@ def oracle_func_shape(tn):
     H = cheb_H(X, 3)
     c = dict(A0=[G.tolist() for G in A0], H=[h.tolist() for h in H], y=yy.tolist(), lamb=0.5, nswp=2)
     B = run_als_func(tn, c)
-    ok, why = cores_close(A, B.get('cores', []), 1e-9)
+    ok, why = cores_close(A, B.get('cores', []), ftol(1e-9, B))
     if not ok:
         return dict(what='als_func: Chebyshev basis path differs from the same basis passed through fh', got=why,
                     kind='func_shape')
